@@ -19,6 +19,8 @@ const VOCAB: &[&str] = &[
     "MICROSECONDS", "INT", "REAL", "TEXT", "BOOLEAN", "TIMESTAMP", "INTERVAL", "int[]", "count", "sum", "min", "max", "avg", "stddev", "variance",
     "percentile", "bool_and", "bool_or", "array_agg", "string_agg", "least", "greatest", "abs", "sqrt", "pow", "length", "upper", "lower",
     "regexp_matches", "array", "array_unique", "now", "make_timestamp", "date_trunc", "x", "y", "t", "t.x", "line", "input", "epoch",
+    // names whose upper-casing and lower-casing are not inverse to each other (long s, dotless i, ligatures, dotted capital I)
+    "\u{17f}um", "m\u{131}n", "\u{fb06}ddev", "\u{fb01}rst", "\u{130}N", "coun\u{1e97}", "MA\u{d7}", "\u{212a}EY",
     // numerals that are not ASCII digits (numeric for Unicode), alone and glued to ASCII digits
     "8\u{ff10}", "1\u{b2}", "1\u{663}\u{663}\u{663}", "\u{ff11}\u{ff10}", "\u{b2}", "1\u{bd}", "2\u{2167}", "1\u{ff10}\u{ff10}\u{ff10}\u{ff10}", "1.\u{ff15}", "1e\u{ff15}",
     "(", ")", "[", "]", "{", "}", ",", ";", ":", "::", "=>", "=", "!=", "<", "<=", ">", ">=", "+", "-", "*", "/", ".", "^", "!", "--", "\\", "'", "'a'", "''",
@@ -272,7 +274,19 @@ impl Monitor for C14 {
                 for _ in 0..n { let at = *rng.pick(&spots); words[at] = rng.pick(&["MAX ( i )", "COUNT ( * )", "SUM ( g )", "MIN ( k )", "COUNT ( DISTINCT i )", "PERCENTILE ( r , 0.5 )", "STRING_AGG ( k , ',' )", "AVG ( MAX ( i ) )", "ARRAY_AGG ( s )", "BOOL_AND ( b )", "( MAX ( i ) , 1 )", "COUNT ( )", "MAX ( )", "STDDEV ( r , r )"]).to_string(); }
                 json!({"kind": "misplaced-aggregate", "text": words.join(" ")})
             },
-            9 | 10 => json!({"kind": "bad", "text": bad_definition(rng)}),
+            9 => json!({"kind": "bad", "text": bad_definition(rng)}),
+            10 => if rng.chance(1, 2) { json!({"kind": "bad", "text": bad_definition(rng)}) } else {
+                // names and keywords re-spelled with letters whose upper- and lower-casing are not inverse to each other
+                // (long s, dotless i, Kelvin sign, ligatures): whatever a case-insensitive lookup makes of them, no crash
+                let words: Vec<String> = split_words(&valid_statement(rng)).into_iter().map(|w| {
+                    if !w.chars().all(|c| c.is_ascii_alphabetic() || c == '_') || !rng.chance(1, 3) { return w; }
+                    match rng.below(5) {
+                        0 => w.replacen(['s', 'S'], "\u{17f}", 1), 1 => w.replacen(['i', 'I'], "\u{131}", 1), 2 => w.replacen("st", "\u{fb06}", 1).replacen("ST", "\u{fb06}", 1),
+                        3 => w.replacen(['k', 'K'], "\u{212a}", 1), _ => w.replacen(['i', 'I'], "\u{130}", 1),
+                    }
+                }).collect();
+                json!({"kind": "unicode-casing", "text": words.join(" ")})
+            },
             _ => json!({"kind": "nest", "text": nest_case(rng)}),
         }
     }
